@@ -57,6 +57,17 @@ impl TimeGen {
         }
         let mut dt = if rng.chance(0.08) {
             *rng.pick(&SPECIAL_DT)
+        } else if rng.chance(0.02) {
+            // a long silence: a robot parked overnight, over a weekend, for a season ("increasing
+            // timestamps" puts no ceiling on the interval)
+            match rng.below(6) {
+                0 => 86_400_000_000_000 + rng.range(0, 1_000_000_000),
+                1 => 2 * 86_400_000_000_000,
+                2 => 7 * 86_400_000_000_000 + rng.range(-1_000_000, 1_000_000),
+                3 => 30 * 86_400_000_000_000,
+                4 => 365 * 86_400_000_000_000,
+                _ => rng.log_uniform(14_400_000_000_000, 3_000 * 86_400_000_000_000),
+            }
         } else {
             rng.log_uniform(self.lo, self.hi)
         };
